@@ -283,6 +283,43 @@ theorem startsLoop_spec (ms : List Mode) (e l : Option Int)
         · simp only [c1, c2, if_false]
           exact key a b hab (Or.inr rfl) (Or.inr rfl) (by omega) (by omega) (by omega) (by omega)
 
+/-- The `IsZero()`-seeded loop of the code before `fix:` 7872cfb computes what the `Option`-seeded loop
+computes as long as no start time is the zero instant. -/
+theorem startsLoopLegacy_eq (zero : Int) (ms : List Mode) (hz : ∀ s ∈ starts ms, s ≠ zero)
+    (e l : Int) (n : Nat) (eo lo : Option Int)
+    (hR : (n = 0 ∧ e = zero ∧ l = zero ∧ eo = none ∧ lo = none) ∨
+          (0 < n ∧ eo = some e ∧ lo = some l ∧ e ≠ zero ∧ l ≠ zero)) :
+    ((startsLoopLegacy zero e l n ms).2.2 = 0 ∧ startsLoop eo lo ms = (none, none)) ∨
+    (0 < (startsLoopLegacy zero e l n ms).2.2 ∧
+      startsLoop eo lo ms =
+        (some (startsLoopLegacy zero e l n ms).1, some (startsLoopLegacy zero e l n ms).2.1)) := by
+  induction ms generalizing e l n eo lo with
+  | nil =>
+    simp only [startsLoopLegacy, startsLoop]
+    rcases hR with ⟨h0, _, _, rfl, rfl⟩ | ⟨hn, rfl, rfl, _, _⟩
+    · exact Or.inl ⟨h0, rfl⟩
+    · exact Or.inr ⟨hn, rfl⟩
+  | cons m ms ih =>
+    cases hm : m.start with
+    | none =>
+      have hst : starts (m :: ms) = starts ms := by simp [starts, hm]
+      simp only [startsLoopLegacy, startsLoop, hm]
+      exact ih (by rw [← hst]; exact hz) e l n eo lo hR
+    | some st =>
+      have hst : starts (m :: ms) = st :: starts ms := by simp [starts, hm]
+      have hz' : ∀ s ∈ starts ms, s ≠ zero := fun s hs => hz s (by rw [hst]; exact List.mem_cons_of_mem _ hs)
+      have hstz : st ≠ zero := hz st (by rw [hst]; exact List.mem_cons_self)
+      simp only [startsLoopLegacy, startsLoop, hm]
+      rcases hR with ⟨_, rfl, rfl, rfl, rfl⟩ | ⟨_, rfl, rfl, hez, hlz⟩
+      · simp only [true_or, if_true]
+        exact ih hz' st st (n + 1) (some st) (some st) (Or.inr ⟨by omega, rfl, rfl, hstz, hstz⟩)
+      · simp only [hez, hlz, false_or]
+        by_cases c1 : st < e <;> by_cases c2 : st > l <;> simp only [c1, c2, if_true, if_false]
+        · exact ih hz' st st (n + 1) _ _ (Or.inr ⟨by omega, rfl, rfl, hstz, hstz⟩)
+        · exact ih hz' st l (n + 1) _ _ (Or.inr ⟨by omega, rfl, rfl, hstz, hlz⟩)
+        · exact ih hz' e st (n + 1) _ _ (Or.inr ⟨by omega, rfl, rfl, hez, hstz⟩)
+        · exact ih hz' e l (n + 1) _ _ (Or.inr ⟨by omega, rfl, rfl, hez, hlz⟩)
+
 /-- A non-negative shift keeps lengths non-negative and the value "at infinity". -/
 theorem shift_nonNeg (d : Int) (segs : List Seg) (hd : 0 ≤ d) (h : NonNeg segs) : NonNeg (shift d segs) := by
   unfold shift
